@@ -28,3 +28,19 @@ def idx_list(a):
         x = int(x)
         out.append(-1 if (x < 0 or x >= 2**31 - 1) else x)
     return out
+
+
+def layout(a, mode):
+    """the same values in another memory layout: 'F' Fortran-ordered copy, 'T' transposed view of a transposed copy,
+    'S' every-other-element view of a widened copy (non-contiguous); anything else: unchanged"""
+    if a is None or mode in (None, "C"):
+        return a
+    a = np.asarray(a)
+    if mode == "F":
+        return np.asfortranarray(a)
+    if mode == "T":
+        return a.T.copy().T
+    if mode == "S":
+        big = np.repeat(a, 2, axis=-1)
+        return big[..., ::2]
+    return a
